@@ -444,10 +444,10 @@ class Design:
   def cls_name(self, comp):
     return f'Gen{self.uid}_{comp.replace(".", "_") or "Top"}'
 
-def generate(rng, max_blocks=8, with_children=True, with_regs=True, wide=False, max_regs=3, min_regs=0, structs=None, many_wires=False, allow_base=True):
+def generate(rng, max_blocks=8, with_children=True, with_regs=True, wide=False, max_regs=3, min_regs=0, structs=None, many_wires=False, allow_base=True, closed=False):
   """an acyclic, single-writer design"""
   d = Design(rng, next(_uid))
-  if allow_base and rng.random() < 0.2:
+  if allow_base and not closed and rng.random() < 0.2:
     d.base = generate(rng, max_blocks=4, with_children=False, max_regs=2, allow_base=False)
   W = lambda: rng.choice([1, 2, 3, 4, 4, 8, 8, 8, 12, 16] + ([32, 64] if wide else []))
   top_reset = d.new_sig('', 'reset', 1, 'in')
@@ -473,7 +473,7 @@ def generate(rng, max_blocks=8, with_children=True, with_regs=True, wide=False, 
       alt = [f'{base}1', f'{base}10', f'{base}1x', f'{base}x', f'{base}_q', f'{base}11']
       rng.shuffle(alt); pool = alt[:k]
     return pool
-  n_in = rng.randint(1, 3)
+  n_in = 0 if closed else rng.randint(1, 3)     # closed: no input port besides clk / reset (a free-running design)
   for nm in names('in', n_in): d.new_sig('', nm, W(), 'in', ST())
   for nm in names('out', rng.randint(1, 3)): d.new_sig('', nm, W(), 'out', ST())
   for nm in names('w', rng.randint(1, 4)): d.new_sig('', nm, W(), 'wire', ST())
@@ -482,7 +482,7 @@ def generate(rng, max_blocks=8, with_children=True, with_regs=True, wide=False, 
   if rng.random() < 0.4:      # a list of wires / out ports: s.wl = [Wire(..) for _ in range(k)]
     lw, lst, kind = W(), ST(), rng.choice(['wire', 'wire', 'out'])
     for i in range(rng.choice([2, 3, 3, 4])): d.new_sig('', f'{"wl" if kind == "wire" else "ol"}[{i}]', lw, kind, lst)
-  if rng.random() < 0.45:     # a list of in ports and a narrow index port: s.il[s.isel], s.il[s.isel].f, s.il[s.isel][a:b]
+  if not closed and rng.random() < 0.45:     # a list of in ports and a narrow index port: s.il[s.isel], s.il[s.isel].f, s.il[s.isel][a:b]
     lw, lst, k = W(), ST(), rng.choice([2, 3, 4, 4])
     for i in range(k): d.new_sig('', f'il[{i}]', lw, 'in', lst)
     d.new_sig('', 'isel', 2 if (k == 4 and rng.random() < 0.6) else 1, 'in')
